@@ -444,8 +444,9 @@ def ev_summary(mode, ev, before=()):
     return k
 
 
-def validate_runs(ctx, results, label, chunk=120):
-    """results: list of (behaviour, run_case result).  TLC judges; rejections are reported."""
+def validate_runs(ctx, results, label, chunk=120, rerun=None):
+    """results: list of (behaviour, run_case result).  TLC judges; rejections are reported.
+    Returns the set of indices (into results) of the rejected runs."""
     chunks = [results[j:j + chunk] for j in range(0, len(results), chunk)]
 
     def one(t):
@@ -455,19 +456,29 @@ def validate_runs(ctx, results, label, chunk=120):
             evs += r["events"]
             owner += [bi] * len(r["events"])
         return [(ch[owner[i]], evs[i], ci * chunk + owner[i]) for i in tlc_validate(ctx, evs, "%s-%d" % (label, ci))], len(evs)
-    nrej = set()
-    for rejs, nev in vt.pmap(one, list(enumerate(chunks)), workers=6):
+    rejs = []
+    for rj, nev in vt.pmap(one, list(enumerate(chunks)), workers=6):
         ctx.cov.setdefault("trace_events", 0)
         ctx.cov["trace_events"] += nev
-        for (b, r), ev, ri in rejs:
-            nrej.add(ri)
-            pos = [j for j, x in enumerate(r["events"]) if x is ev]
-            sig = "trace:%s%s:%s" % (b["mode"], "+o" if b["o"] else "", ev_summary(b["mode"], ev, r["events"][:pos[0]] if pos else ()))
-            ctx.report(sig, "chibicc %s (inputs %s, fault %s/%s): recorded run is not a behaviour of Driver.tla at event %s; model expects calls %s, exit %s" % (
-                " ".join(r["argv"]), b["ins"], b["fault"], b["df"], ev, [(x["tool"], x["status"]) for x in b["log"]], b["code"]),
-                case=dict(kind="run", beh=b, rejected_event=ev, events=r["events"]))
+        rejs += rj
+    if rerun and 0 < len(rejs) <= 24:
+        # a rejected run is executed and validated once more; only a repeated rejection counts
+        again = [(b, rerun(b, 100000 + k)) for k, ((b, r), ev, ri) in enumerate(rejs)]
+        evs, owner = [], []
+        for k, (b, r) in enumerate(again):
+            evs += r["events"]
+            owner += [k] * len(r["events"])
+        still = {owner[i]: evs[i] for i in tlc_validate(ctx, evs, label + "-again")}
+        ctx.cov["rejections_not_repeated"] = ctx.cov.get("rejections_not_repeated", 0) + len(rejs) - len(still)
+        rejs = [((b, again[k][1]), still[k], ri) for k, ((b, r), ev, ri) in enumerate(rejs) if k in still]
+    for (b, r), ev, ri in rejs:
+        pos = [j for j, x in enumerate(r["events"]) if x is ev]
+        sig = "trace:%s%s:%s" % (b["mode"], "+o" if b["o"] else "", ev_summary(b["mode"], ev, r["events"][:pos[0]] if pos else ()))
+        ctx.report(sig, "chibicc %s (inputs %s, fault %s/%s): recorded run is not a behaviour of Driver.tla at event %s; model expects calls %s, exit %s" % (
+            " ".join(r["argv"]), b["ins"], b["fault"], b["df"], ev, [(x["tool"], x["status"]) for x in b["log"]], b["code"]),
+            case=dict(kind="run", beh=b, rejected_event=ev, events=r["events"]))
     ctx.cov["traces_validated_against_impl"] += len(results)
-    return nrej
+    return {ri for _, _, ri in rejs}
 
 
 # ------------------------------------------------------------ two real drivers
@@ -670,7 +681,7 @@ def run(ctx):
                     fault=mid["fault"], directory_fault=mid["df"], expected_exit=mid["code"], expected_calls=mid["log"], expected_final_fs=mid["fs"]))
     ctx.phase("replay done (%d runs)" % len(todo))
     # 3. TLC: every recorded run is a behaviour of the model
-    validate_runs(ctx, list(zip(todo, results)), "solo")
+    validate_runs(ctx, list(zip(todo, results)), "solo", rerun=lambda b, i: run_case(ctx, tree, shim, inputs, b, i))
     ctx.phase("trace validation done")
     # 4. two real drivers in one directory
     pairs = make_pairs(beh, ctx.seed, 40 if q else 600)
